@@ -422,6 +422,10 @@ def _b_roll(op, root, start, ws):
     kw = _skw(start)
     if ws:
         kw['with_state'] = True
+    if op.get('minp') is not None:
+        # accepted by Frame.rolling(); the streaming implementation does not hand it to pandas, so the results are
+        # those of the default -- but it must not influence how much state is carried or resumed either
+        kw['min_periods'] = op['minp']
     w = v if kind == 'n' else '%ds' % v
     if op.get('selpos') == 'before':
         r = _sel(root, op.get('sel')).rolling(w, **kw)
